@@ -20,10 +20,11 @@ def build_ext():
 PLANS = {
     "quick": [("book", "py", 120, 50, ["--levels", "10"]), ("env", "plain", 60, 8, ["--levels", "10"]),
               ("env", "npy", 60, 8, ["--levels", "10"]), ("env", "toggle", 30, 8, ["--levels", "10"]),
-              ("env", "malformed", 30, 6, ["--levels", "10"])],
+              ("env", "malformed", 30, 6, ["--levels", "10"]), ("env", "unusual", 60, 8, ["--levels", "10"])],
     "thorough": [("book", "py", 3000, 80, ["--levels", "10"]), ("env", "plain", 1500, 12, ["--levels", "10"]),
                  ("env", "npy", 1500, 12, ["--levels", "10"]), ("env", "toggle", 600, 10, ["--levels", "10"]),
-                 ("env", "malformed", 600, 8, ["--levels", "10"]), ("env", "overfull", 300, 6, ["--levels", "10"])],
+                 ("env", "malformed", 600, 8, ["--levels", "10"]), ("env", "overfull", 300, 6, ["--levels", "10"]),
+                 ("env", "unusual", 1500, 12, ["--levels", "10"])],
 }
 
 
